@@ -1,0 +1,70 @@
+//go:build verif
+
+// Verification hook for /verif property C28 (add-only, compiled only with -tags verif): lets the harness
+// drive the REAL backend client's syncer-update path (onUpdates -> updateBGPConfigCache) without a datastore
+// and render the REAL kernel-programming filter (processIPPools).  Nothing here changes behaviour.
+package calico
+
+import (
+	v3 "github.com/projectcalico/api/pkg/apis/projectcalico/v3"
+
+	"github.com/projectcalico/calico/confd/pkg/backends/types"
+	"github.com/projectcalico/calico/libcalico-go/lib/backend/api"
+)
+
+// VerifC28Client wraps a real client initialised the way NewCalicoClient does it, minus the datastore connection.
+type VerifC28Client struct{ c *client }
+
+// VerifC28NewClient returns such a client; NodeName (package variable) is set to nodeName.
+func VerifC28NewClient(nodeName string) *VerifC28Client {
+	NodeName = nodeName
+	c := &client{
+		cache:                          map[string]string{},
+		peeringCache:                   map[string]string{},
+		cacheRevision:                  1,
+		revisionsByPrefix:              map[string]uint64{},
+		nodeMeshEnabled:                true,
+		nodeLabelManager:               newNodeLabelManager(),
+		bgpPeers:                       map[string]*v3.BGPPeer{},
+		sourceReady:                    map[string]bool{},
+		nodeListenPorts:                map[string]uint16{},
+		nodeIPs:                        map[string]struct{}{},
+		programmedRouteRefCount:        map[string]int{},
+		ExternalIPRouteIndex:           NewRouteIndex(),
+		ClusterIPRouteIndex:            NewRouteIndex(),
+		LoadBalancerIPRouteIndex:       NewRouteIndex(),
+		serviceLoadBalancerAggregation: v3.ServiceLoadBalancerAggregationEnabled,
+		configCache:                    map[int]*bgpConfigCache{},
+	}
+	for k, v := range globalDefaults {
+		c.cache[k] = v
+	}
+	return &VerifC28Client{c}
+}
+
+// OnUpdates re-exports (*client).onUpdates(updates, false).
+func (v *VerifC28Client) OnUpdates(updates []api.Update) { v.c.onUpdates(updates, false) }
+
+// SetCacheValue / DeleteCacheValue write the v1 key/value cache the templates (and processIPPools) read.
+func (v *VerifC28Client) SetCacheValue(key, value string) {
+	v.c.cacheLock.Lock()
+	defer v.c.cacheLock.Unlock()
+	v.c.cache[key] = value
+}
+
+func (v *VerifC28Client) DeleteCacheValue(key string) {
+	v.c.cacheLock.Lock()
+	defer v.c.cacheLock.Unlock()
+	delete(v.c.cache, key)
+}
+
+// KernelFilterForIPPools re-exports (*client).processIPPools for the context the real config computation
+// builds (globalBGPConfig: c.getBGPConfig()) and returns the kernel-programming filter statements.
+func (v *VerifC28Client) KernelFilterForIPPools(ipVersion int) ([]string, error) {
+	config := &types.BirdBGPConfig{NodeName: NodeName}
+	pc := &processorContext{globalBGPConfig: v.c.getBGPConfig()}
+	if err := v.c.processIPPools(pc, config, ipVersion); err != nil {
+		return nil, err
+	}
+	return config.KernelFilterForIPPools, nil
+}
